@@ -69,7 +69,20 @@ type caseRun struct {
 	Horizon  bool
 }
 
-var runNames = []string{"first", "repeat+2s", "repeat+1000s"}
+var runNames = []string{"first", "repeat+2s(other letter case)", "repeat+1000s"}
+
+func swapCase(s string) string {
+	b := []byte(s)
+	for i, c := range b {
+		switch {
+		case 'a' <= c && c <= 'z':
+			b[i] = c - 32
+		case 'A' <= c && c <= 'Z':
+			b[i] = c + 32
+		}
+	}
+	return string(b)
+}
 
 func runCase(c Case) caseRun {
 	var cr caseRun
@@ -95,6 +108,9 @@ func runCase(c Case) caseRun {
 				}
 			case 1:
 				vs.Advance(2 * time.Second)
+				// the repeat spells the name in the other letter case (dns-0x20 clients do):
+				// whatever is served must carry THIS query's question bytes
+				q.Name = swapCase(q.QName())
 			case 2:
 				vs.Advance(1000 * time.Second) // answers have expired (lazy cache: stale hit + background update)
 				q.ID = c.Q.ID ^ 0x00FF
